@@ -50,6 +50,7 @@ def ordinary(it, name, refs=(), h=None):
     n = len(c.attrs['_hashes'].items)          # one hash per significant level (more than one above pruned branches)
     c.attrs['_hashes'] = ListV([hh] + [sym32(f'H_{name}@{k}') for k in range(1, n)])
     c.attrs['_hash'] = c.attrs['_hashes'].items[-1]
+    cm.reforge(it, c)
     c.l0 = hh
     c.tag = name
     return c
@@ -281,6 +282,7 @@ def check(run):
             acc1 = const_cell(it, '0')
             acc1.attrs['_hashes'] = ListV([A])
             acc1.attrs['_hash'] = A
+            cm.reforge(it, acc1)
         acc2 = const_cell(it, '0')                               # account_none$0
         acc3 = const_cell(it, '0')
         lth = {1: format(0x11, '08b') * 32, 2: format(0x22, '08b') * 32, 3: format(0x33, '08b') * 32}
